@@ -48,6 +48,15 @@ def extraStep (h : Heap) (k : HKey) (rm : Bool) (g : Graph) (x : W) (H : Hooks) 
     | some e => ⟨undo rm r.2.1 r.1, some e⟩
     | none => ⟨r.1, none⟩
 
+/-- `for y in ys: f(y)` threading the hooks; the first exception propagates. -/
+def foldRes (f : W → Hooks → Res) : List W → Hooks → Res
+  | [], H => ⟨H, none⟩
+  | y :: ys, H =>
+    let r := f y H
+    match r.err with
+    | some e => ⟨r.H, some e⟩
+    | none => foldRes f ys r.H
+
 mutual
 /-- `_AddOrRemoveNotifier.__call__` (_observe.py:75-105).  `extra = false` is the
 walk started by `TraitAddedObserver.observer_change_handler`, whose root
@@ -99,10 +108,7 @@ def addRemoveCs (h : Heap) (k : HKey) (rm : Bool) (ob : Observer) (x : W) : List
     match objects h ob x with
     | .error e => ⟨H, some e⟩
     | .ok ys =>
-      let r := ys.foldl (fun (acc : Res) y =>
-        match acc.err with
-        | some _ => acc
-        | none => addRemove h k rm true c y acc.H) ⟨H, none⟩
+      let r := foldRes (addRemove h k rm true c) ys H
       match r.err with
       | some e => ⟨r.H, some e⟩
       | none => addRemoveCs h k rm ob x cs r.H
